@@ -1,11 +1,153 @@
 """Determinism and sensitivity self-tests (DESIGN.md section 8)."""
+import importlib
+import json
+import os
+import subprocess
+import sys
+import time
+
+from . import runner
+from .core import HarnessError
+
+HASH_SENSITIVE = {"C16", "C15"}  # set-iteration order of path strings in training.py's clean-up
 
 
-def determinism(seed, quick=True):
-    print("selftest-determinism: not yet implemented")
+def available():
+    out = []
+    for pid, mod in sorted(runner.PROPS.items()):
+        if os.path.exists(os.path.join(runner.VERIF, mod.replace(".", "/") + ".py")):
+            out.append(pid)
+    return out
+
+
+def batch_digests(pid, seed, n, workers):
+    merged, truncated, _ = runner.run_batch(pid, "quick", seed, n, workers, wall_cap=600)
+    if merged["harness_errors"]:
+        raise HarnessError(f"{pid}: harness errors in determinism batch: {merged['harness_errors'][0]}")
+    return merged["digests"]
+
+
+def fresh(pid, seed, n, workers, hashseed):
+    env = dict(os.environ, VERIF_SEED=str(seed), VERIF_HASHSEED=str(hashseed), PYTHONHASHSEED=str(hashseed))
+    cmd = [sys.executable, os.path.join(runner.VERIF, "check.py"), "digests", pid, "--runs", str(n), "--workers", str(workers)]
+    p = subprocess.run(cmd, capture_output=True, text=True, env=env, timeout=1800)
+    if p.returncode != 0:
+        raise HarnessError(f"digest subprocess failed for {pid}: {p.stdout[-800:]} {p.stderr[-800:]}")
+    line = [l for l in p.stdout.splitlines() if l.startswith("DIGESTS ")][-1]
+    return json.loads(line[len("DIGESTS ") :])
+
+
+def determinism(seed, quick=True, only=None):
+    n = 20 if quick else 200
+    bad = 0
+    report = {}
+    t0 = time.time()
+    for pid in available():
+        if only and pid not in only:
+            continue
+        a = batch_digests(pid, seed, n, 1)
+        b = batch_digests(pid, seed, n, 1)
+        c = [tuple(x) for x in fresh(pid, seed, n, 16, 0)]
+        entry = {"runs": n, "same_process_twice": a == b, "fresh_interpreter_16_workers": [tuple(x) for x in a] == c}
+        if not quick:
+            d = [tuple(x) for x in fresh(pid, seed, n, 4, 0)]
+            entry["fresh_interpreter_4_workers"] = [tuple(x) for x in a] == d
+            e = [tuple(x) for x in fresh(pid, seed, n, 16, 7)]
+            entry["other_pythonhashseed_equal"] = [tuple(x) for x in a] == e
+            if pid not in HASH_SENSITIVE and not entry["other_pythonhashseed_equal"]:
+                bad += 1
+        ok = entry["same_process_twice"] and entry["fresh_interpreter_16_workers"] and entry.get("fresh_interpreter_4_workers", True)
+        if not ok:
+            bad += 1
+            diff = [i for (i, x), (_, y) in zip(a, c) if x != y][:5]
+            entry["first_diverging_runs"] = diff
+        report[pid] = entry
+        print(f"determinism {pid}: {entry}")
+        sys.stdout.flush()
+    os.makedirs(runner.OUT, exist_ok=True)
+    with open(os.path.join(runner.OUT, "determinism.json"), "w") as f:
+        json.dump({"seed": seed, "report": report, "wall_s": round(time.time() - t0, 1)}, f, indent=1)
+    if bad:
+        print(f"HARNESS-ERROR determinism self-test failed for {bad} comparisons")
+        return 2
+    print(f"selftest-determinism ok ({len(report)} checks, {time.time() - t0:.0f}s)")
     return 0
 
 
-def sensitivity(seed):
-    print("selftest-sensitivity: not yet implemented")
-    return 0
+# ---------------------------------------------------------------------------------------
+# sensitivity: textual mutants applied to an in-memory copy of a module (no edit of /repo)
+# ---------------------------------------------------------------------------------------
+class Mutant:
+    def __init__(self, name, pid, module, edits, runs=None):
+        self.name, self.pid, self.module, self.edits, self.runs = name, pid, module, edits, runs
+
+
+def apply_source(modname, src):
+    mod = importlib.import_module(modname)
+    code = compile(src, mod.__file__, "exec")
+    exec(code, mod.__dict__)
+    # names re-exported elsewhere (e.g. pydrobert.torch.data) keep pointing at the old
+    # objects: rebind them
+    import pydrobert.torch as pt
+
+    for parent_name in ("pydrobert.torch.data", "pydrobert.torch.functional", "pydrobert.torch.modules", "pydrobert.torch.training", "pydrobert.torch.command_line"):
+        try:
+            parent = importlib.import_module(parent_name)
+        except Exception:
+            continue
+        if parent is mod:
+            continue
+        for k, v in list(vars(parent).items()):
+            new = mod.__dict__.get(k)
+            if new is not None and new is not v and getattr(v, "__module__", None) == modname and callable(v):
+                setattr(parent, k, new)
+
+
+def sensitivity(seed, only=None):
+    from .mutants import MUTANTS
+
+    results = []
+    known = runner.load_known()
+    t0 = time.time()
+    for m in MUTANTS:
+        if only and m.pid not in only and m.name not in only:
+            continue
+        if m.pid not in available():
+            continue
+        mod = importlib.import_module(m.module)
+        with open(mod.__file__) as f:
+            orig = f.read()
+        src = orig
+        ok_edit = True
+        for old, new in m.edits:
+            if src.count(old) < 1:
+                ok_edit = False
+            src = src.replace(old, new)
+        if not ok_edit:
+            results.append({"mutant": m.name, "property": m.pid, "status": "edit-does-not-apply"})
+            print(f"sensitivity {m.name}: edit does not apply")
+            continue
+        prop = runner.load_prop(m.pid)
+        n = m.runs or max(40, prop.BUDGET["quick"] // 4)
+        try:
+            apply_source(m.module, src)
+            if hasattr(prop, "reset_caches"):
+                prop.reset_caches()
+            merged, _, wall = runner.run_batch(m.pid, "quick", seed, n, min(16, os.cpu_count() or 1), wall_cap=300)
+        finally:
+            apply_source(m.module, orig)
+            if hasattr(prop, "reset_caches"):
+                prop.reset_caches()
+        unknown = [f for f in merged["failures"] if runner.match_known(known, m.pid, f["violations"][0]) is None]
+        oracles = sorted({f["violations"][0]["oracle"] for f in unknown})
+        status = "caught" if unknown else ("harness-error" if merged["harness_errors"] else "MISSED")
+        results.append({"mutant": m.name, "property": m.pid, "status": status, "failing_runs": len(unknown), "oracles": oracles, "runs": n, "wall_s": round(wall, 1),
+                        "harness_errors": len(merged["harness_errors"])})
+        print(f"sensitivity {m.name} [{m.pid}]: {status} ({len(unknown)} failing evaluations; oracles {oracles[:4]})")
+        sys.stdout.flush()
+    os.makedirs(runner.EVIDENCE, exist_ok=True)
+    with open(os.path.join(runner.EVIDENCE, "sensitivity.json"), "w") as f:
+        json.dump({"seed": seed, "results": results, "wall_s": round(time.time() - t0, 1)}, f, indent=1)
+    missed = [r for r in results if r["status"] != "caught"]
+    print(f"selftest-sensitivity: {len(results) - len(missed)}/{len(results)} mutants caught")
+    return 0 if not missed else 3
